@@ -421,8 +421,12 @@ def splice_fn(out: Out, it: Item, file: str, fid: str, *, ret: str = 'res',
         if any(toks[k].kind == 'ident' and toks[k].text == sink for k in range(ta, tb)):
             raise AnchorLost(f'{fid}: opaque-expression anchor {pat!r} mentions the sink `{sink}`; it cannot be dropped')
         replace[ta] = (tb, d['call'])
-        out.dropped.append(f"{fid}: expression `{' '.join(pat.split())}` ({file}:{it.line_of(a)}) replaced by an unconstrained value of type "
-                           f"{d['type']} (Verus cannot process it; it does not mention the sink)")
+        if d.get('note'):
+            # a presentation rewrite with a stated meaning (not an unconstrained value)
+            out.dropped.append(f"{fid}: `{' '.join(pat.split())}` ({file}:{it.line_of(a)}) presented as `{d['call']}` — {d['note']}")
+        else:
+            out.dropped.append(f"{fid}: expression `{' '.join(pat.split())}` ({file}:{it.line_of(a)}) replaced by an unconstrained value of type "
+                               f"{d['type']} (Verus cannot process it; it does not mention the sink)")
 
     # ---- `ITER.for_each(|p| { BODY })` is presented to Verus as `for p in <opaque finite Vec> { BODY }`
     # (Verus has no closures capturing `&mut`; the desugaring is the definition of Iterator::for_each).
@@ -492,13 +496,6 @@ def splice_fn(out: Out, it: Item, file: str, fid: str, *, ret: str = 'res',
             raise AnchorLost(f'{fid}: overlapping splice anchors')
         buf += _slice(it, cur, c)
         cur = c
-        if c in replace:
-            tb, call = replace[c]
-            # keep the line structure of the dropped text so that line numbers still map 1:1
-            dropped_text = it.src[toks[c].start:toks[tb - 1].end]
-            buf += call + '\n' * dropped_text.count('\n')
-            cur = tb
-            continue
         if c in ins:
             if buf:
                 out.code(buf, file, buf_line)
@@ -509,6 +506,13 @@ def splice_fn(out: Out, it: Item, file: str, fid: str, *, ret: str = 'res',
         if c in inline:
             assert '\n' not in inline[c]
             buf += inline[c]
+        if c in replace:
+            tb, call = replace[c]
+            # keep the line structure of the dropped text so that line numbers still map 1:1
+            dropped_text = it.src[toks[c].start:toks[tb - 1].end]
+            buf += call + '\n' * dropped_text.count('\n')
+            cur = tb
+            continue
     buf += it.src[toks[cur].start:body_b]
     out.code(buf + '\n', file, buf_line)
     out._cur_fn = None
